@@ -67,13 +67,16 @@ func stapleOCSP(ctx context.Context, ocspConfig OCSPConfig, storage Storage, cer
 	// we can still use it.
 	ocspStapleKey := StorageKeys.OCSPStaple(cert, pemBundle)
 	cachedOCSP, err := storage.Load(ctx, ocspStapleKey)
-	if err == nil {
-		// if the chain has the issuer certificate, verify the stored response
-		// against it just like a response coming from the responder
-		var issuerCert *x509.Certificate
-		if len(cert.Certificate.Certificate) > 1 {
-			issuerCert, _ = x509.ParseCertificate(cert.Certificate.Certificate[1])
-		}
+	// The stored response is verified against the issuer certificate just like
+	// a response coming from the responder. If the chain does not have the
+	// issuer certificate, the stored response cannot be verified, so it is not
+	// used: the responder is asked instead (getOCSPForCert gets the issuer
+	// certificate), and the file is replaced when a new staple is obtained.
+	var issuerCert *x509.Certificate
+	if len(cert.Certificate.Certificate) > 1 {
+		issuerCert, _ = x509.ParseCertificate(cert.Certificate.Certificate[1])
+	}
+	if err == nil && issuerCert != nil {
 		resp, err := ocsp.ParseResponse(cachedOCSP, issuerCert)
 		if err == nil {
 			if freshOCSP(resp) && checkOCSPResponse(resp, cert.Leaf) == nil {
